@@ -111,7 +111,24 @@ def sig_c15(rec):
     return "proxy:%s %s?%s [%s] %s" % (case.get("method"), case.get("path"), case.get("query"), case.get("label"), "|".join(case.get("client_headers") or []))[:200]
 
 
+def sig_c12(rec):
+    case = rec.get("case") or {}
+    if case.get("kind") == "decoder" and case.get("codec") == "lz4" and case.get("size") == 0:
+        return "lz4-empty-block"
+    return "codecs:%s:%s:%s:%s" % (case.get("kind"), case.get("codec", case.get("path", case.get("what", ""))), case.get("size", case.get("configured", "")), case.get("body", case.get("block_hex", "")))
+
+
 PROPS = {
+    "C12": {
+        "families": {"codecs": {"quick": 60, "thorough": 600, "search": 200}},
+        "signature": sig_c12,
+        "trusted_base": [
+            "models coq/Model/Compress.v (level storage / clamps / dispatch) and coq/Model/LZ4.v (LZ4 block decoder with destination capacity, doLZ4Decode's retry rule) are hand-written; tied by the codecs family",
+            "DEFLATE, Brotli, Zstandard, Snappy and pierrec/lz4's decoder are third-party: exercised against reference encoders/decoders on bodies up to 1 MiB and on mutated streams (testing, not proof)",
+        ],
+        "assumptions": ["LZ4 theorems are about well-formed byte strings (every element < 256)"],
+        "explanation": "level legality for all configured values; dispatch; LZ4 expansion bound and completeness of the repaired decoder on every valid block.",
+    },
     "C15": {
         "families": {"proxy": {"quick": 400, "thorough": 8000, "search": 2000}},
         "signature": sig_c15,
